@@ -65,6 +65,18 @@ def run(rep, F, ctx):
         ok = want <= consts
         rep.add('TYPEBITS', 'typebits:opts.mode', 'MemfsEntryOpts::mode ORs the type bits 0o120000 / 0o100000 / 0o40000', ok, '%s:%d' % (B.file, B.line),
                 '' if ok else 'type-bit constants found: %s' % sorted(oct(c) for c in consts))
+        # the value the type bits are OR-ed onto is masked to the permission bits first
+        unmasked = []
+        for i, j, s in B.assigns():
+            rv = s['rv']
+            if rv['k'] == 'binop' and rv['op'] == 'BitOr':
+                for o, other in ((rv['l'], rv['r']), (rv['r'], rv['l'])):
+                    if o['k'] == 'const' and 'int' in o and int(o['int']) in (0o120000, 0o100000, 0o40000):
+                        d = sdesc_operand(B, other)
+                        if not ('BitAnd(' in d and ',4095)' in d):
+                            unmasked.append('%s | %s at %s' % (d, oct(int(o['int'])), B.loc(i)))
+        rep.add('TYPEBITS', 'typebits:mask', 'the caller\'s mode is masked to its permission bits (& 0o7777) before the type bits are OR-ed on', not unmasked, '%s:%d' % (B.file, B.line),
+                '' if not unmasked else 'type bits are OR-ed onto an unmasked value (%s): chmod(file, 0o40755) would store directory type bits on a file' % '; '.join(unmasked))
 
     rep.rule('GUARDED-BY', 'each permission write (MemfsEntry::set_mode on a stored entry / fs::set_permissions) in _chmod and its pre_op closure is reached only '
              'through the !is_symlink() edge or the follow edge of the option struct')
@@ -75,6 +87,24 @@ def run(rep, F, ctx):
                                      '%(fn)s changes permissions only for a non-link entry (or when following)',
                                      '%(fn)s changes permissions at %(loc)s without the guard !is_symlink() || follow: chmod would alter a symlink itself', P)
     rep.floor('GUARDED-BY', 'permission write sites', n, 4)
+
+    rep.rule('SYM-NONLINK', 'in sys::mode no permission arithmetic is reachable from the is_symlink() == true edge: for a link entry (followed or not) the symbolic '
+             'expression is not evaluated and the original mode is returned')
+    fn = 'sys::fs::chmod::mode'
+    if fn in F.bodies:
+        B = cg.body(fn)
+        tedges = P.escape_edges(B, [('true', r'^is_symlink[(]')])
+        arith = {i for i, j, s in B.assigns() if s['rv']['k'] == 'binop' and s['rv']['op'] in ('BitAnd', 'BitOr') and s['rv'].get('lty') == 'u32'}
+        bad = []
+        for (d, tb) in tedges:
+            hit = sorted(arith & B.reachable_from(tb))
+            if hit:
+                bad.append(B.loc(hit[0]))
+        ok = bool(tedges) and bool(arith) and not bad
+        rep.add('SYM-NONLINK', 'symnonlink:mode', 'sys::mode returns the unchanged mode on the is_symlink() edge (no permission arithmetic is reachable from it)', ok, '%s:%d' % (B.file, B.line),
+                '' if ok else 'from the is_symlink() == true edge sys::mode can still reach the permission arithmetic (%s): the link\'s own 0o120777 mode becomes the base of the expression and is written to the entry' % bad[:3])
+    else:
+        rep.add('SYM-NONLINK', 'symnonlink:mode', 'sys::mode exists', False, detail='anchor missing')
 
     rep.rule('META-CONSIST', 'within Stdfs, mode, is_exec and is_readonly read the same metadata flavour (all symlink_metadata or all metadata)')
     flav = {}
